@@ -719,6 +719,117 @@ fn reverse_some_ops(inst: &Inst, g: &mut SplitMix64) -> Option<Inst> {
 }
 
 // ---------------------------------------------------------------------------------------------
+// large strings: the per-slot tables of the cluster update come from the container's buffer pool and are sized
+// with `resize_each(last_p + 1, …)` on the assumption that a recycled buffer is empty; strings whose last occupied
+// slot lies beyond 65 536, several cluster updates in a row on the SAME container
+// ---------------------------------------------------------------------------------------------
+
+fn large_inst(g: &mut SplitMix64) -> Inst {
+    let nvars = g.range(4, 6) as usize;
+    let mut bonds: Vec<TableBond> = vec![];
+    for v in 0..nvars - 1 {
+        bonds.push(TableBond { vars: vec![v, v + 1], constant: false, mat: sym_mat(g, 2) });
+    }
+    let first_const = bonds.len();
+    for v in 0..nvars {
+        bonds.push(TableBond { vars: vec![v], constant: true, mat: vec![dy(g); 4] });
+    }
+    let l = 70_000 + g.below(3_000) as usize;
+    let nops = 2_000usize;
+    let mut positions = std::collections::BTreeSet::new();
+    while positions.len() < nops {
+        positions.insert(g.below((l - nvars - 2) as u64) as usize);
+    }
+    let s0: Vec<bool> = (0..nvars).map(|_| g.coin()).collect();
+    let mut s = s0.clone();
+    let mut slots: Snap = vec![None; l];
+    for p in positions {
+        let b = g.below(bonds.len() as u64) as usize;
+        let tb = &bonds[b];
+        let ins: Vec<bool> = tb.vars.iter().map(|v| s[*v]).collect();
+        let mut outs = ins.clone();
+        if tb.constant && g.coin() {
+            outs[0] = !outs[0];
+        }
+        for (k, v) in tb.vars.iter().enumerate() {
+            s[*v] = outs[k];
+        }
+        let diag = ins == outs;
+        slots[p] = Some(OpRec { bond: b, vars: tb.vars.clone(), ins, outs, diag, constant: tb.constant });
+    }
+    // close the world lines, and occupy the very last slot
+    for v in 0..nvars {
+        if s[v] != s0[v] {
+            slots[l - nvars - 2 + v] =
+                Some(OpRec { bond: first_const + v, vars: vec![v], ins: vec![s[v]], outs: vec![s0[v]], diag: false, constant: true });
+            s[v] = s0[v];
+        }
+    }
+    slots[l - 1] = Some(OpRec { bond: first_const, vars: vec![0], ins: vec![s0[0]], outs: vec![s0[0]], diag: true, constant: true });
+    let man = build(nvars, &slots);
+    Inst { nvars, state: s0, man, bonds, frozen: vec![], origin: "large" }
+}
+
+/// Several cluster updates in a row on the same container (all-reject, all-accept, random, all-reject): the usual
+/// oracle after each, and the cluster count must be the same every time (it reads only the skeleton).
+/// Oracle only: the strings are too long for the line protocol / the Lean driver (the driver echoes `same`).
+fn large_case(g: &mut SplitMix64) {
+    let inst = large_inst(g);
+    let mut man = inst.man.clone();
+    let mut state = inst.state.clone();
+    let n = man.get_n();
+    let mut orc: Result<(), String> = Ok(());
+    let mut counts: Vec<usize> = vec![];
+    let last_p = (0..man.get_cutoff()).rev().find(|p| man.get_pth(*p).is_some()).unwrap_or(0);
+    for (round, kind) in ["reject", "accept", "random", "reject", "accept"].iter().enumerate() {
+        let cur = Inst { state: state.clone(), man: man.clone(), ..inst.clone() };
+        let before = snap(&cur.man);
+        let script: Vec<u64> = match *kind {
+            "reject" => reject_words(g, 4 * n + 8),
+            "accept" => (0..4 * n + 8).map(|_| g.next() >> 1).collect(),
+            _ => vec![],
+        };
+        let mut rng = RecRng::scripted(script, g.next());
+        let res = {
+            let (man, state, rng) = (&mut man, &mut state, &mut rng);
+            catch(|| man.flip_each_cluster_ising_symmetry_rng(0.5, rng, state))
+        };
+        match res {
+            Err(e) => {
+                orc = Err(format!("cluster update number {} ({}) on the same container panicked: {}", round + 1, kind, e));
+                break;
+            }
+            Ok(ret) => {
+                let draws = rng.take_log();
+                let out = Outcome { state: state.clone(), man: man.clone(), ret, draws };
+                if let Err(e) = oracle(&cur, &before, &out, None, false, *kind == "reject") {
+                    orc = Err(format!("cluster update number {} ({}) on the same container: {}", round + 1, kind, e));
+                    break;
+                }
+                if out.draws.len() != ret {
+                    orc = Err(format!("cluster update number {} ({}): {} draws for {} clusters", round + 1, kind, out.draws.len(), ret));
+                    break;
+                }
+                counts.push(ret);
+            }
+        }
+    }
+    if orc.is_ok() && counts.windows(2).any(|w| w[0] != w[1]) {
+        orc = Err(format!("cluster counts differ between repetitions on the same skeleton: {:?}", counts));
+    }
+    if orc.is_ok() && counts.first().map_or(true, |c| *c < 2) {
+        orc = Err(format!("large scenario degenerate: cluster counts {:?}", counts));
+    }
+    stat("large.cases", 1);
+    emit(
+        true,
+        &format!("large nvars={},cutoff={},last_p={},n={},clusters={}", inst.nvars, inst.man.get_cutoff(), last_p, n, counts.first().cloned().unwrap_or(0)),
+        "same",
+        Some(orc),
+    );
+}
+
+// ---------------------------------------------------------------------------------------------
 // equilibrium strings from the real samplers
 // ---------------------------------------------------------------------------------------------
 
@@ -1431,6 +1542,11 @@ fn main() {
                     }
                 }
             }
+        }
+    }
+    if run_syn {
+        for _ in 0..(if a.thorough { 4 } else { 1 }) {
+            large_case(&mut g);
         }
     }
     if run_eq {
